@@ -7,29 +7,39 @@ PROP = 'C19'
 
 
 def project(w, a):
-    """The observable behaviour on address a: writes, Deferred outcomes, callbacks, closes, losses, own timers;
-    identifiers renamed by order of first use on that address, connections and requests renumbered per address."""
-    ids = {}
-
-    def rid(m):
-        if m is None:
-            return None
-        if m not in ids:
-            ids[m] = len(ids) + 1
-        return ids[m]
+    """The observable behaviour on address a: writes, Deferred outcomes, callbacks, closes, losses, own timers.
+    Identifiers issued by the client are replaced by the (per-address) number of the request that carries them, so the
+    comparison does not depend on which numbers the shared counter happens to hand out; identifiers chosen by the
+    broker (inbound PUBLISH/PUBREL and the acknowledgements echoing them) are left as they are."""
     conns = {c.idx: i for i, c in enumerate([c for c in w.conns if c.addr == a])}
     reqs = {r.idx: i for i, r in enumerate([r for r in w.reqs if r.addr == a])}
+
+    def owner(mid, upto):
+        """The request of this address that carried identifier mid most recently (among those made up to obs index upto)."""
+        best = None
+        for r in w.reqs:
+            if r.addr == a and r.msgId == mid and r.kind in ('pub', 'sub', 'unsub') and r.idx in made[upto]:
+                best = r
+        return ('q', reqs[best.idx]) if best is not None else ('unknown-id',)
+    # which requests exist at each point of the log
+    made, cur = [], set()
+    for o in w.obs:
+        if o[0] == 'call' and o[1] >= 0:
+            cur = cur | {o[1]}
+        made.append(cur)
     out = []
     from .. import refcodec as rc
-    for o in w.obs:
+    for n, o in enumerate(w.obs):
         k = o[0]
         if k == 'w' and o[1] in conns:
             pk = []
             for p in o[5]:
-                if p['type'] in ('PUBACK', 'PUBREC', 'PUBCOMP'):     # echo the broker's identifier space: not renamed
+                if p['type'] in ('PUBACK', 'PUBREC', 'PUBCOMP'):     # echo the broker's identifier space
                     pk.append((p['type'], ('b', p.get('msgId'))))
                     continue
-                pk.append((p['type'], rid(p.get('msgId')), p.get('dup'), p.get('qos'), p.get('topic') or tuple(map(tuple, p.get('topics') or ())) if p.get('topics') and p['type'] == 'SUBSCRIBE' else (p.get('topic') or tuple(p.get('topics') or ()))))
+                tok = ('q', reqs[p['req']]) if p.get('req') is not None and p['req'] in reqs else (None if p.get('msgId') is None else owner(p['msgId'], n))
+                pk.append((p['type'], tok, p.get('dup'), p.get('qos'),
+                           p.get('topic') if p['type'] == 'PUBLISH' else tuple(map(tuple, p['topics'])) if p['type'] == 'SUBSCRIBE' else tuple(p.get('topics') or ())))
             out.append(('w', conns[o[1]], tuple(pk), o[3], o[4], o[6]))
         elif k == 'rx' and o[1] in conns:
             try:
@@ -38,19 +48,21 @@ def project(w, a):
                     d = rc.decode(raw, strict=False)
                     if d['type'] in ('PUBLISH', 'PUBREL'):
                         out.append(('rx', conns[o[1]], d['type'], ('b', d.get('msgId'))))
+                    elif d.get('msgId') is not None:
+                        out.append(('rx', conns[o[1]], d['type'], owner(d['msgId'], n)))
                     else:
-                        out.append(('rx', conns[o[1]], d['type'], rid(d.get('msgId'))))
+                        out.append(('rx', conns[o[1]], d['type'], None))
             except rc.RefError:
                 out.append(('rx', conns[o[1]], o[2]))
         elif k in ('call',) and o[3] in conns and o[1] >= 0:
             out.append(('call', reqs[o[1]], o[2]))
         elif k == 'ret' and o[1] >= 0 and w.reqs[o[1]].addr == a:
-            out.append(('ret', reqs[o[1]], o[2], rid(o[3]) if o[2] == 'deferred' and isinstance(o[3], int) else o[3]))
+            out.append(('ret', reqs[o[1]], o[2], ('q', reqs[o[1]]) if o[2] == 'deferred' and isinstance(o[3], int) else o[3]))
         elif k == 'fire' and o[1] >= 0 and w.reqs[o[1]].addr == a:
             r = w.reqs[o[1]]
             val = o[3]
             if o[2] == 'ok' and r.kind in ('pub', 'unsub') and isinstance(val, int):
-                val = rid(val)
+                val = ('q', reqs[r.idx]) if val == r.msgId else ('other-id', val)
             out.append(('fire', reqs[o[1]], o[2], val, o[4]))
         elif k == 'cb' and o[2] in conns:
             f = o[3]
